@@ -1,6 +1,5 @@
 // ---- spec layer for Components::normalize (C05, C06, C10). The two workers are outside the Verus front end (iterator
 // adaptors / cloned filters); their contracts are ASSUMED here and checked by the bounded stand-ins of vreplay.
-pub uninterp spec fn aux_assigned(cs: Seq<Energy>) -> Option<Seq<Energy>>;
 pub open spec fn sorted_by_id(cs: Seq<Energy>) -> bool { forall|i: int, j: int| 0 <= i <= j < cs.len() ==> e_id(cs[i]) <= e_id(cs[j]) }
 
 // ---- veclistsum: element-wise sum of a list of series, missing elements count as 0
